@@ -337,9 +337,25 @@ pub fn decompress(
                 .map_err(|err| FrameBodyExtensionsParseError::Lz4DecompressError(Arc::new(err)))?;
             Ok(uncomp_body)
         }
-        Compression::Snappy => snap::raw::Decoder::new()
-            .decompress_vec(comp_body)
-            .map_err(|err| FrameBodyExtensionsParseError::SnapDecompressError(Arc::new(err))),
+        Compression::Snappy => {
+            // The decoder sizes its output buffer from the length claimed at the start of
+            // the body. Snappy expands by less than a factor of 32 (a 3-byte copy element
+            // yields at most 64 bytes), so a larger claim is bogus; do not let it size the
+            // output buffer.
+            if let Ok(claimed_len) = snap::raw::decompress_len(comp_body)
+                && claimed_len / 32 > comp_body.len()
+            {
+                return Err(FrameBodyExtensionsParseError::SnapDecompressError(
+                    Arc::new(std::io::Error::new(
+                        std::io::ErrorKind::InvalidData,
+                        "snappy frame body claims an impossible uncompressed size",
+                    )),
+                ));
+            }
+            snap::raw::Decoder::new()
+                .decompress_vec(comp_body)
+                .map_err(|err| FrameBodyExtensionsParseError::SnapDecompressError(Arc::new(err)))
+        }
     }
 }
 
